@@ -32,13 +32,18 @@ Ltac pg :=
   | |- _ => first [ pg_leaf | idtac ]
   end.
 
+Lemma dec_map_sprog fuel id s : (length s + 1 < fuel)%nat -> prog s (run_flat (dec_map fuel id) s).
+Proof. intros H. unfold dec_map. top_ifs; try exact I. apply dec_any_prog, H. Qed.
+Lemma dec_struct0_sprog fuel id s : (length s + 1 < fuel)%nat -> prog s (run_flat (dec_struct0 fuel id) s).
+Proof. intros H. unfold dec_struct0. top_ifs; try exact I. apply dec_skip_prog, H. Qed.
+
 (* typed scalar and slice destinations *)
 Theorem dec_ty_prog : forall fuel t id s, (length s + 1 < fuel)%nat -> prog s (run_flat (dec_ty fuel t id) s).
 Proof.
   induction fuel as [|f IH]; intros t id s Hs; [lia|].
   destruct t; cbn [dec_ty]; pg;
     try (apply dec_any_prog; lia); try (apply prog_prog0, dec_any_prog; lia);
-    try (apply dec_map_prog; lia); try (apply IH; lia).
+    try (apply dec_map_sprog; lia); try (apply IH; lia).
 Qed.
 
 (* ---------- whole documents: Ok means the rest is strictly shorter (the header is at least one byte) ---------- *)
